@@ -63,7 +63,7 @@ ALLOWED_STATES = {
 
 
 def canon(name):
-    return {"OP1": "O1P", "OP2": "O2P"}.get(name, name)
+    return build.strand_canonical_name(name)
 
 
 def temporaries(residue):
@@ -405,7 +405,8 @@ def enumerate_cases(tier, seed):
     strands = [(["DA", "DT", "DG", "DC"], "legacy"),
                (["RA", "RU", "RG", "RC"], "legacy"),
                (["DC", "DA", "DT"], "modern"), (["RG", "RU", "RC"], "modern"),
-               (["RC", "RG"], "short")]
+               (["RC", "RG"], "short"), (["DT", "DA", "DC"], "star"),
+               (["RU", "RG", "RA"], "star")]
     for seq, naming in strands:
         for ff in ("AMBER", "CHARMM", "TYL06", "PARSE"):
             for opt in ("default", "nodebump_noopt"):
